@@ -47,16 +47,16 @@ let inject (ks : keyset option) (inj : string) : keyset option =
 
 let handle line =
   match String.split_on_char '|' line with
-  | ["B"; h] -> both_bin (unhex h)
-  | ["J"; _; bin] -> if bin = "X" then "c:err|n:err" else both_bin (unhex bin)
-  | ["M"; bin; inj] ->
+  | ["B"; h; _] -> both_bin (unhex h)
+  | ["J"; _; bin; _] -> if bin = "X" then "c:err|n:err" else both_bin (unhex bin)
+  | ["M"; bin; inj; _] ->
     (match decode_keyset (unhex bin) with
      | None -> "c:err|n:err"
      | Some ks when any_unmodelled ks -> "U"
      | Some ks ->
        let ks' = inject (Some ks) inj in
        "c:" ^ out (read_proto ec_point_ok ec_pub_of_priv ks') ^ "|n:" ^ out (handle_no_secrets ec_point_ok ec_pub_of_priv ks'))
-  | ["E"; kek; ad; enc] ->
+  | ["E"; kek; ad; enc; _] ->
     let kek = unhex kek in
     let dec (ct : n list) (ad : n list) : n list option =
       if List.length ct < 28 then None
